@@ -274,6 +274,10 @@ func parseVpsSpsPpsAnnexbFromRecord(payload []byte) (vps, sps, pps []byte, err e
 			end = len(payload) - i
 		}
 		nal := payload[i+4 : i+end]
+		if len(nal) == 0 {
+			i += end
+			continue
+		}
 		typ := ParseNaluType(nal[0])
 		switch typ {
 		case NaluTypeVps:
@@ -293,6 +297,10 @@ func parseVpsSpsPpsAnnexbFromRecord(payload []byte) (vps, sps, pps []byte, err e
 }
 
 func parseVpsSpsPpsFromRecord(payload []byte) (vps, sps, pps []byte, err error) {
+	// 最小长度检查：27字节固定部分 + numOfArrays(1) + 第一个array的头部(5)
+	if len(payload) < 33 {
+		return nil, nil, nil, nazaerrors.Wrap(base.ErrHevc)
+	}
 	index := 27
 	if numOfArrays := payload[index]; numOfArrays != 3 && numOfArrays != 4 {
 		return nil, nil, nil, nazaerrors.Wrap(base.ErrHevc)
